@@ -70,11 +70,19 @@ def check_parens(ctx, model):
     base = model.get('ASTNode')
     ts = base.methods.get('to_string')
     ctx.need(ts is not None, 'ASTNode.to_string not found')
-    rets = [r for r in walk_no_nested(ts) if isinstance(r, ast.Return)]
-    txt = norm(rets[0].value) if rets else ''
-    ok = len(rets) == 1 and txt.startswith('self.maybe_add_alias(self.maybe_add_parentheses(self.get_string(')
+    # interpreted on a stand-in whose three parts are recognisable
+    from ..interp import Interp as _I, Obj as _O, Raised as _R, Env as _E
+    outs = {}
+    for al in (True, False):
+        node = _O('Node', get_string=lambda *a, **k: 'X', maybe_add_parentheses=lambda s_: f'P[{s_}]', maybe_add_alias=lambda s_, alias=True: f'A{alias}[{s_}]',
+                  alias=None, parentheses=False)
+        try:
+            outs[al] = _I().call_function(ts, [node], {'alias': al}, _E())
+        except _R as r:
+            outs[al] = f'<{r.exc_name}>'
+    ok = outs == {True: 'ATrue[P[X]]', False: 'AFalse[P[X]]'}
     ctx.ob('C01.paren-kept', 'ASTNode.to_string', ok,
-           f'ASTNode.to_string is `{txt}`: it must compose maybe_add_alias(maybe_add_parentheses(get_string()))', file=BASE, line=ts.lineno)
+           f'ASTNode.to_string composes {outs}: it must be maybe_add_alias(maybe_add_parentheses(get_string()), alias=alias)', file=BASE, line=ts.lineno)
     # the two wrappers of the base printer, interpreted on probe texts: parentheses <=> exactly one pair around the text
     from ..interp import Interp, Obj, Raised, Env
     mp = base.methods.get('maybe_add_parentheses')
